@@ -36,7 +36,10 @@ const (
 	KP2WPKH
 	KP2SHTrue
 	KOpReturn
+	KPad // <push of zeros> OP_DROP OP_TRUE, sized around a length-encoding boundary of the stored utxo format
 )
+
+var padLens = []int{121, 122, 124, 127, 128, 129}
 
 type utxoRec struct {
 	Value    int64
@@ -216,6 +219,12 @@ func (w *World) script(kind, key int) []byte {
 		return append(s, txscript.OP_EQUAL)
 	case KOpReturn:
 		return []byte{txscript.OP_RETURN, 2, 'v', byte(key)}
+	case KPad:
+		l := padLens[key%len(padLens)]
+		sc := make([]byte, l)
+		sc[0], sc[1] = txscript.OP_PUSHDATA1, byte(l-4)
+		sc[l-2], sc[l-1] = txscript.OP_DROP, txscript.OP_TRUE
+		return sc
 	}
 	panic("kind")
 }
@@ -283,7 +292,7 @@ func (w *World) makeTx(p *txPlan) *MTx {
 			continue
 		}
 		switch in.Rec.Kind {
-		case KTrue:
+		case KTrue, KPad:
 		case KP2SHTrue:
 			tx.TxIn[i].SignatureScript = []byte{1, txscript.OP_TRUE}
 		case KP2PKH:
@@ -547,7 +556,7 @@ func (w *World) Build(parent *MBlock, o BlockOpts) *MBlock {
 		copy(pre[:32], root[:])
 		copy(pre[32:], make([]byte, 32))
 		c := dsha(pre[:])
-		if commitMode == "wrong" {
+		if commitMode == "wrong" || commitMode == "wrong-long" {
 			c[5] ^= 0x40
 		}
 		magic := []byte{txscript.OP_RETURN, 0x24, 0xaa, 0x21, 0xa9, 0xed}
@@ -562,6 +571,10 @@ func (w *World) Build(parent *MBlock, o BlockOpts) *MBlock {
 			c = bad
 		}
 		pk := append(append([]byte(nil), magic...), c[:]...)
+		if commitMode == "long" || commitMode == "wrong-long" {
+			// the commitment output may carry more data after the 38 bytes (BIP141)
+			pk = append(pk, 0x04, 0xde, 0xad, 0xbe, 0xef)
+		}
 		cb.AddTxOut(&wire.TxOut{Value: 0, PkScript: pk})
 	}
 	if bp.sizeTarget > 0 {
@@ -744,6 +757,11 @@ func (w *World) classify(pk []byte) (int, int) {
 	if bytes.Equal(pk, w.script(KP2SHTrue, 0)) {
 		return KP2SHTrue, 0
 	}
+	for i, l := range padLens {
+		if len(pk) == l && bytes.Equal(pk, w.script(KPad, i)) {
+			return KPad, i
+		}
+	}
 	return KOpReturn, 0
 }
 
@@ -830,7 +848,7 @@ func (bp *blockPlan) randomOuts(total int64) []*wire.TxOut {
 			v = left / int64(n-i)
 		}
 		left -= v
-		kind := simkit.Pick(w.C, "out-kind", 4, 3, 3, 1, 1)
+		kind := simkit.Pick(w.C, "out-kind", 4, 3, 3, 1, 1, 1)
 		if !bp.segwit && kind == KP2WPKH {
 			kind = KP2PKH
 		}
